@@ -17,6 +17,9 @@ import Nlmodel.Proofs.Lemmas.SyntacticOnly
 import Nlmodel.Proofs.Lemmas.Resolve7Top
 import Nlmodel.Proofs.Lemmas.Sim8Embed
 import Nlmodel.Proofs.Lemmas.Sim8Example
+import Nlmodel.Proofs.Lemmas.DivCtlExample
+import Nlmodel.Proofs.Lemmas.Div6Example
+import Nlmodel.Proofs.Lemmas.Div7Example
 namespace Nl
 namespace C01
 
@@ -587,6 +590,82 @@ example : Sim.SB false
       (.cons _ _ _ (.letS _ _ _ (.bin _ _ _ _ .mul rfl (.ident _ _) (.int _ _)))
       (.cons _ _ _ (.expr _ _ (.assign _ _ _ (.bin _ _ _ _ .add rfl (.ident _ _) (.ident _ _)))) (.nil _))))))))
     (.cons _ _ _ (.expr _ _ (.ident _ _)) (.nil _))))
+
+/-! ### DIVERGENCE PRESERVATION (session 7)
+
+The forward simulation theorems above speak about definitional evaluations that END (a value, or an error after some output).
+A program whose definitional evaluation never ends — a loop that never stops, a recursion that never returns — must not end
+on the machine either.  Fuel is decremented at every node of the evaluation derivation; for a fixed program only loop
+iterations and calls can consume unboundedly much of it, and every iteration and every call executes at least one machine
+instruction.  `Lemmas/DivCtl*`, `Div6*`, `Div7*` prove, by induction on the fuel in parallel with (and using) the forward
+simulation for the sub-evaluations that complete: if the evaluation of a fragment answers "out of fuel" with fuel `f`, the machine
+started in the related configuration performs at least `f - d` (stage 3; `d` the static depth) resp. `(f + K - d) / K` (stages
+6, 7; `K` bounds the depth of every function body: a call pays one step for at most `K` levels of the derivation) further
+steps without halting, failing or faulting — or stops at its 65535-slot/frame limit, which the semantics does not have and which
+the machine reports as an index error.  Hence: -/
+
+/-- stage 3 (integers, booleans, global variables, `als`, `zolang`, `stop`, `volgende`; no limit to hit): a text of the source
+    fragment whose definitional evaluation runs out of EVERY fuel exhausts EVERY instruction budget on the machine -/
+theorem C01_control_flow_divergence (cc : CharClass) (src : Text) (ast : Block) (r : RBlock) (bc : Bytecode)
+    (hp : parse cc src = .ok ast) (hs : Sim.SB false ast) (hc : compileProgram ast = .ok (r, bc))
+    (hdiv : ∀ F, specText cc F src = .budget) : ∀ b, evalText cc b src = .budget :=
+  Sim.ctl_text_diverges cc src ast r bc hp hs hc hdiv
+
+/-- quantitative form: out of fuel with fuel `F` ⇒ at least `F - depth` instructions on a fresh machine -/
+theorem C01_control_flow_runs_at_least (p : RBlock) (Γ' : Sim.Gam) (hx : Sim.XB [] false p Γ') (bc : Bytecode) (hc : compileR p = .ok bc)
+    (F : Nat) (hdiv : Spec.evalB F p {} = .fuel) : Sim.Runs bc.code (VM.start {} bc) (F - Sim.dB p) :=
+  Sim.ctl_program_runs p Γ' hx bc hc F hdiv
+
+/-- THE CONVERSE of the forward theorem, stage 3: whatever the machine answers within some budget IS the definitional answer
+    for some fuel (the one exception is the unspecified behaviour U2, `stel x = x`: `C01_converse_needs_unspec`) -/
+theorem C01_control_flow_machine_answer_is_definitional (cc : CharClass) (src : Text) (ast : Block) (r : RBlock) (bc : Bytecode)
+    (hp : parse cc src = .ok ast) (hs : Sim.SB false ast) (hc : compileProgram ast = .ok (r, bc))
+    (b : Nat) (hne : evalText cc b src ≠ .budget) :
+    ∃ F, specText cc F src = evalText cc b src ∨ specText cc F src = .unspec :=
+  Sim.ctl_text_converse cc src ast r bc hp hs hc b hne
+
+/-- the `.unspec` alternative is needed: `stel x = x` is in the fragment, the semantics leaves it unspecified (U2), the machine
+    answers null -/
+theorem C01_converse_needs_unspec : ∃ b, evalText CharClass.ascii b Sim.selfSrc ≠ .budget ∧
+    ∀ F, specText CharClass.ascii F Sim.selfSrc ≠ evalText CharClass.ascii b Sim.selfSrc :=
+  Sim.converse_needs_unspec
+
+/-- stage 6 (heap values together with calls, collections inside; syntactic source fragment `src6Top`): a text whose
+    definitional evaluation diverges never ends on the machine with a value or an ordinary error: for every budget the answer
+    is `budget`, or the machine has stopped for good at its stack/frame limit (reported as an index error) -/
+theorem C01_heap_and_calls_divergence (cc : CharClass) (src : Text) (ast : Block) (r : RBlock) (bc : Bytecode) (hp : parse cc src = .ok ast)
+    (hs : Sim6.src6Top ast = true) (hc : compileProgram ast = .ok (r, bc)) (hdiv : ∀ F, specText cc F src = .budget) (b : Nat) :
+    evalText cc b src = .budget ∨ (∃ n out, ∀ k, evalText cc (n + k) src = .error .index out) :=
+  Sim6.eval_text6_div cc src ast r bc hp hs hc hdiv b
+
+/-- the converse, stage 6: a machine answer that is not `budget` and not the limit is the definitional answer for some fuel -/
+theorem C01_heap_and_calls_machine_answer_is_definitional (cc : CharClass) (src : Text) (ast : Block) (r : RBlock) (bc : Bytecode)
+    (hp : parse cc src = .ok ast) (hs : Sim6.src6Top ast = true) (hc : compileProgram ast = .ok (r, bc)) (b : Nat)
+    (hne : evalText cc b src ≠ .budget) (hnl : ¬ ∃ n out, ∀ k, evalText cc (n + k) src = .error .index out) :
+    ∃ F, specText cc F src = evalText cc b src ∨ specText cc F src = .unspec :=
+  Sim6.eval_text6_converse cc src ast r bc hp hs hc b hne hnl
+
+/-- stage 7 (function literals in every expression position, named declarations in any block; syntactic fragment `src7Top`) -/
+theorem C01_nested_functions_divergence (cc : CharClass) (src : Text) (ast : Block) (r : RBlock) (bc : Bytecode) (hp : parse cc src = .ok ast)
+    (hs : Sim7.src7Top ast = true) (hc : compileProgram ast = .ok (r, bc)) (hdiv : ∀ F, specText cc F src = .budget) (b : Nat) :
+    evalText cc b src = .budget ∨ (∃ n out, ∀ k, evalText cc (n + k) src = .error .index out) :=
+  Sim7.eval_text7_div_checked cc src ast r bc hp hs hc hdiv b
+
+theorem C01_nested_functions_machine_answer_is_definitional (cc : CharClass) (src : Text) (ast : Block) (r : RBlock) (bc : Bytecode)
+    (hp : parse cc src = .ok ast) (hs : Sim7.src7Top ast = true) (hc : compileProgram ast = .ok (r, bc)) (b : Nat)
+    (hne : evalText cc b src ≠ .budget) (hnl : ¬ ∃ n out, ∀ k, evalText cc (n + k) src = .error .index out) :
+    ∃ F, specText cc F src = evalText cc b src ∨ specText cc F src = .unspec :=
+  Sim7.eval_text7_converse_checked cc src ast r bc hp hs hc b hne hnl
+
+/-- non-vacuity: programs that really diverge in the definitional semantics (proved for every fuel): a loop whose variable
+    flips between 0 and 1, a function that calls itself forever, a returned nested literal that loops -/
+theorem C01_divergent_programs_exist :
+    (∀ F, specText CharClass.ascii F Sim.divSrc = .budget) ∧ (∀ F, Spec.evalB F Sim6.exRecR {} = .fuel) ∧ (∀ F, Spec.evalB F Sim7.ex7R {} = .fuel) :=
+  ⟨Sim.div_spec_diverges, Sim6.exRec_diverges, Sim7.ex7_diverges⟩
+
+/-- sanity of the semantics: the counting loop `stel i = 0; zolang ja { i = i + 1 }` does NOT diverge — it ends with the
+    type error of leaving the 61-bit integer range (on the machine as well, by the forward theorem) -/
+theorem C01_counting_loop_ends : ¬ ∀ F, specText CharClass.ascii F Sim.incSrc = .budget := Sim.inc_text_not_divergent
 
 /-- non-vacuity: the source tree of `stel x = 1; x = x + 2; x` is in the fragment -/
 example : Sim.AB (.cons (.letS ['x'] (.int 1)) (.cons (.expr (.assign (.ident ['x'])
